@@ -374,6 +374,9 @@ def replay(ctx, path):
     rp = body['replay']
     if 'first' in rp:
         rp = rp['first']
+    if 'spec' not in rp:   # a proof-obligation replay: nothing to re-run on the implementation
+        print(json.dumps(rp, default=repr)[:3000])
+        return
     spec = {k: v for k, v in rp['spec'].items() if k != 'sec2_bits'}
     res = scenario((rp['seed'], rp['i'], spec))
     breaks = evaluate(ctx, [res])
